@@ -54,6 +54,12 @@ class EnumStrMix(str, enum.Enum):        # the pre-3.11 spelling of a string enu
     BLUE = 'blue'
 
 
+class EnumNum(enum.Enum):
+    """int- and float-valued members side by side: 1.0 is neither of them."""
+    B = 2.5      # (the float-valued member first: the int 1 must still find A)
+    A = 1
+
+
 class EnumIntMix(enum.IntEnum):
     LO = 1
     HI = 2
@@ -196,7 +202,7 @@ LEAF_TYPES: t.Dict[str, t.Callable[[], t.List[t.Any]]] = {
     'path': lambda: [pathlib.Path], 'pathlike': lambda: [os.PathLike],
     'any': lambda: [t.Any, t.Any, TV_FREE],
     'enum_int': lambda: [EnumInt], 'enum_str': lambda: [EnumStr], 'enum_mixed': lambda: [EnumMixed],
-    'enum_strmix': lambda: [EnumStrMix], 'enum_intmix': lambda: [EnumIntMix],
+    'enum_strmix': lambda: [EnumStrMix], 'enum_intmix': lambda: [EnumIntMix], 'enum_num': lambda: [EnumNum],
     'lit_str': lambda: [t.Literal['a', 'b']], 'lit_mixed': lambda: [t.Literal[1, 'a', None]],
     'sub_str': lambda: [SubStr], 'sub_int': lambda: [SubInt], 'sub_float': lambda: [SubFloat],
     'sub_list': lambda: [SubList], 'sub_dict': lambda: [SubDict],
@@ -337,7 +343,7 @@ EXT_MEMBERS = {
 }
 # leaves whose images are hashable (usable as set elements / dict keys)
 HASHABLE_LEAVES = ['int', 'float', 'complex', 'str', 'bytes', 'bool', 'none', 'decimal', 'fraction', 'date', 'time',
-                   'datetime', 'pattern', 'purepath', 'enum_int', 'enum_str', 'enum_mixed', 'enum_strmix', 'enum_intmix', 'lit_str', 'lit_mixed',
+                   'datetime', 'pattern', 'purepath', 'enum_int', 'enum_str', 'enum_mixed', 'enum_strmix', 'enum_intmix', 'enum_num', 'lit_str', 'lit_mixed',
                    'sub_str', 'sub_int', 'empty_tuple']
 # reduced leaf set for the second position of binary constructors and for depth 3
 CORE_LEAVES = ['int', 'float', 'str', 'bool', 'none', 'bytes', 'decimal', 'any']
